@@ -128,6 +128,28 @@ def run(ctx):
     calls = [e for e in g2.events() if e.kind == 'call' and e.fn == f.name] if g2 else []
     rc.expect(len(calls) == 1 and g2.postdominates(calls[0].point, (g2.entry, 0)), 'limit:wired', g2.where() if g2 else f.where(),
               'jdf_sanity_checks must always run the flows/deps limit check', note='limit check part of jdf_sanity_checks')
+    # the locals limit is checked by the generator itself: the quantity it compares with MAX_LOCAL_COUNT must be the
+    # quantity it then writes into the emitted guard and the reserved[] size (nothing may be added in between)
+    u2 = ctx.extract(PTG + 'jdf2c.c')
+    ft = u2.func('jdf_generate_task_typedef')
+    ctx.functions_analysed.add(ft.name)
+    cmpb = None
+    for bid in ft.blocks:
+        c = ft.cond(bid)
+        if c is not None and c.k == 'bin' and c.op in ('>', '<', '>=', '<=') and 'MAX_LOCAL_COUNT' in gc.macro_names(ft, c):
+            cmpb = (bid, c)
+    emits = [e for e in ft.events() if e.kind == 'call' and e.fn == 'string_arena_add_string' and len(e.args) > 2 and e.args[1].k == 'str' and 'MAX_LOCAL_COUNT <' in (e.args[1].n or '')]
+    okq = cmpb is not None and len(emits) == 1
+    if okq:
+        bid, c = cmpb
+        var = c.ch[0].s if 'MAX_LOCAL_COUNT' not in gc.macro_names(ft, c.ch[0]) else c.ch[1].s
+        strict = (c.op == '>' and c.ch[0].s == var) or (c.op == '<' and c.ch[1].s == var)
+        fatal = [e for e in ft.events() if e.kind == 'call' and e.fn == 'exit' and ft.edge_dominates(bid, True, e.point)]
+        between = [s_ for s_ in ft.stores(var) if ft.reaches((bid, 10 ** 6), s_.point, acyclic=True) and ft.reaches(s_.point, emits[0].point, acyclic=True)]
+        okq = strict and bool(fatal) and emits[0].args[2].s == var and not between and ft.dominates((bid, 0), emits[0].point)
+    rc.expect(okq, 'limit:locals-same-quantity', ft.loc(ft.blocks[cmpb[0]]['cond']) if cmpb else ft.where(),
+              'jdf_generate_task_typedef must compare with MAX_LOCAL_COUNT exactly the count it then emits in the guard (parameters + locals + local definitions), and stop with an error when it is larger',
+              note='locals: the checked count is the emitted count; excess is fatal')
     um = ctx.extract(os.path.join(driver.BUILD, PTG, 'parsec.l.c'))
     m = um.func('main')
     if m is None:
